@@ -134,3 +134,48 @@ func SelfTest(c *Ctx, p *Property) {
 	}
 	c.R.Extra["selftest_seeded_changes"] = n
 }
+
+// TryPatch runs the quick-tier rules of the given properties on the tree with
+// a patch applied through an overlay (development aid: /repo is not modified,
+// no evidence is written). Returns the reports per property.
+func TryPatch(patch string, props []string) map[string][]string {
+	out := map[string][]string{}
+	ov, err := overlayFor(patch)
+	if err != nil {
+		for _, pr := range props {
+			out[pr] = []string{"overlay: " + err.Error()}
+		}
+		return out
+	}
+	shared := map[string]*core.Prog{}
+	for _, pr := range props {
+		p := Registry[pr]
+		if p == nil {
+			out[pr] = []string{"unknown property"}
+			continue
+		}
+		sub := NewCtx(pr, "selftest")
+		sub.Overlay = ov
+		sub.Shared = shared
+		func() {
+			defer func() {
+				if e := recover(); e != nil {
+					sub.R.Fatalf("checker panic: %v", e)
+				}
+			}()
+			p.Run(sub)
+		}()
+		var rep []string
+		for _, o := range sub.R.Obls {
+			if o.Status != core.Discharged {
+				rep = append(rep, fmt.Sprintf("%s: [%s] %s — %s (%s)", o.Pos, o.Rule, o.Func, o.Site, o.Detail))
+			}
+		}
+		for _, f := range sub.R.Fatal {
+			rep = append(rep, "checker failure: "+f)
+		}
+		sort.Strings(rep)
+		out[pr] = rep
+	}
+	return out
+}
